@@ -26,6 +26,9 @@ def main(argv=None):
     if a.target == "selftest":
         from selftest import run_all
         return run_all.main()
+    if a.only and not os.environ.get("VERIF_OUT_DIR"):
+        # a partial run (development aid) must not overwrite the evidence of the registered command
+        os.environ["VERIF_OUT_DIR"] = os.path.join(ROOT, ".partial")
     from symv.driver import run_property
     return run_property(a.target.upper(), a.tier, a.seed, jobs=a.jobs, only=a.only)
 
